@@ -837,6 +837,8 @@ func (in *exInfo) refList() []string {
 // knownShape maps what a graph contains to the shape of the known defect it may trigger ("" if none).
 func (in *exInfo) knownShape() string {
 	switch {
+	case in.Tags["id:reldir"]:
+		return "id-reldir" // a relative id with a directory component: known never to terminate on a cycle
 	case in.Tags["id"]:
 		return "id"
 	case in.Tags["prefix-sibling"]:
